@@ -185,6 +185,10 @@ class OperatorMapper:
         if operation is operator.le or operator_name == "le":
             return left <= right
         if operation is operator.ne or operator_name == "ne":
+            # None != value holds in memory, NULL != value is not true in SQL
+            for operand, other in ((left, right), (right, left)):
+                if hasattr(operand, "is_distinct_from"):
+                    return operand.is_distinct_from(other)
             return left != right
 
         raise UnsupportedOperatorError(f"Unknown operator: {operation}")
@@ -262,9 +266,14 @@ class DomainValueExtractor:
             return variable.value if hasattr(variable, "value") else variable
 
         try:
-            sample = next(iter(variable._domain_)).value
-        except (StopIteration, AttributeError):
+            values = [hashed_value.value for hashed_value in variable._domain_]
+            sample = values[0]
+        except (IndexError, AttributeError):
             return variable.value if hasattr(variable, "value") else variable
+        if not isinstance(variable, Literal) and len(values) > 1:
+            raise UnsupportedQueryTypeError(
+                f"The variable {variable._name_} ranges over several values, it cannot be bound as one value."
+            )
 
         if isinstance(variable, Literal):
             return sample
@@ -488,14 +497,16 @@ class EQLTranslator:
         :param query: EQL query
         :return: SQL expression or None if all parts are handled via JOINs.
         """
-        parts = self._collect_logical_parts(query)
+        parts = self._collect_logical_parts(query, joins_allowed=False)
         return self._combine_logical_parts(parts, or_)
 
-    def _collect_logical_parts(self, query: Any) -> List[Any]:
+    def _collect_logical_parts(self, query: Any, joins_allowed: bool = True) -> List[Any]:
         """
         Collect parts from a binary logical expression.
 
         :param query: The logical expression (AND/OR)
+        :param joins_allowed: Whether an operand may be expressed as a JOIN instead of a condition. A JOIN restricts
+         the whole statement, which is only right for the operands of a conjunction.
         :return: List of translated parts
         """
         parts = []
@@ -503,6 +514,10 @@ class EQLTranslator:
         if hasattr(query, "left") and hasattr(query, "right"):
             left_part = self.translate_query(query.left)
             right_part = self.translate_query(query.right)
+            if not joins_allowed and (left_part is None or right_part is None):
+                raise UnsupportedQueryTypeError(
+                    "An equality join cannot be an operand of a disjunction."
+                )
             if left_part is not None:
                 parts.append(left_part)
             if right_part is not None:
@@ -612,10 +627,14 @@ class EQLTranslator:
         else:
             target_dao, target_fk, anchor_fk = left_dao, left_fk, right_fk
 
-        if not self.join_manager.is_table_joined(target_dao):
-            onclause = target_fk == anchor_fk
-            self.sql_query = self.sql_query.join(target_dao, onclause=onclause)
-            self.join_manager.add_table_join(target_dao)
+        if self.join_manager.is_table_joined(target_dao):
+            # the first join decides the ON clause, a second condition between the same two classes would be dropped
+            raise UnsupportedQueryTypeError(
+                f"{target_dao.__name__} is already joined, a second join condition cannot be expressed."
+            )
+        onclause = target_fk == anchor_fk
+        self.sql_query = self.sql_query.join(target_dao, onclause=onclause)
+        self.join_manager.add_table_join(target_dao)
 
         return True
 
